@@ -109,6 +109,10 @@ def histories(draw, kind, tier):
         # same call for an untyped cache and different calls for a typed one
         x, y = draw(st.sampled_from([(1, 3), (1, 5), (3, 5), (0, 6), (2, 4), (1, 19), (3, 20)]))  # indexes into VALUES
         pool += [([x, y], []), ([y, x], [])] if draw(st.booleans()) else [([], [("a", x), ("b", y)]), ([], [("a", y), ("b", x)])]
+    if draw(st.integers(0, 3)) == 0:
+        # the same keywords in another order: two different calls for functools (and the library)
+        x, y = draw(st.sampled_from([(1, 2), (0, 1), (1, 3), (8, 9)]))
+        pool += [([], [("a", x), ("b", y)]), ([], [("b", y), ("a", x)])]
     if draw(st.integers(0, 4)) == 0:
         pool += [([23], []), ([24], [])]  # f(0.5-ish) and f(the int its key hashes to): one hash bucket, two calls
     pick = st.one_of(st.sampled_from(pool), st.sampled_from(pool), st.sampled_from(pool), call)
